@@ -332,6 +332,53 @@ def replay(case):
         shutil.rmtree(wd, ignore_errors=True)
 
 
+# ---------------------------------------------------------------------------------------------
+# P7: the extraction chunk limit py7zr derives from the process's own resource limits (properties.get_memory_limit():
+# a quarter of what RLIMIT_DATA leaves above 256 MB) instead of the limit a seam or the default supplies
+def _p7_child(a):
+    import io
+    import resource
+
+    import py7zr
+    from py7zr import properties
+
+    chain, soft = a
+    members = [("a.txt", b"hello"), ("d/b.bin", b"world!" * 40), ("c", b"third member")]
+    bio = io.BytesIO()
+    with py7zr.SevenZipFile(bio, "w", filters=chains.py_filters(chain)) as z:
+        for n, d in members:
+            z.writestr(d, n)
+    _, hard = resource.getrlimit(resource.RLIMIT_DATA)
+    resource.setrlimit(resource.RLIMIT_DATA, (soft, hard))
+    limit = properties.get_memory_limit()
+    f = Collect()
+    try:
+        with py7zr.SevenZipFile(io.BytesIO(bio.getvalue())) as z:
+            names = z.getnames()
+            z.extractall(factory=f)
+    except Exception as ex:
+        return limit, f"{type(ex).__name__}: {ex}"
+    got = f.as_list()
+    if names != [n for n, _ in members] or sorted(got) != sorted(members):
+        return limit, f"delivered {[(n, len(d)) for n, d in got]}"
+    return limit, None
+
+
+def shard_p7(task):
+    sh = Shard()
+    for chain, soft in task:
+        st, val = forked(_p7_child, (chain, soft), timeout=120)
+        sh.case(("P7", chain, soft), nontrivial=True, sample={"chain": chain, "RLIMIT_DATA": soft, "derived_chunk_limit": val[0] if st == "ok" else None} if len(sh.samples) < 2 else None)
+        if st == "error":
+            sh.count("harness_case_error")
+            sh.note("harness_errors", str(val)[-200:])
+        elif st != "ok":
+            sh.violation({"symptom": "interpreter-died" if st == "crash" else st, "plane": "P7", "chain": chain}, f"P7 {chain} RLIMIT_DATA={soft}: {st} {str(val)[-300:]}", {"plane": "P7", "chain": chain, "soft": soft})
+        elif val[1]:
+            sh.violation({"symptom": "round-trip-fails-under-rlimit", "plane": "P7", "chain": chain}, f"P7 {chain} RLIMIT_DATA={soft} (derived chunk limit {val[0]}): {val[1]}", {"plane": "P7", "chain": chain, "soft": soft})
+    return sh.result()
+
+
 def main(tier="quick", seed=0, only=None):
     chk = Check("C01", "exploration", MODULE, tier, seed)
     tasks = []
@@ -355,13 +402,19 @@ def main(tier="quick", seed=0, only=None):
                       case_of=lambda s: {"case": s[1][0]}, sig_of=lambda s, st: sig(s[1][0], "interpreter-died" if st == "crash" else "hang"))
     for t, r in zip(tasks, res):
         chk.merge_pool([r], plane=t[0])
+    if not only or "P7" in only:
+        softs = [int(200e6), int(256e6), int(256e6) + 4, int(256e6) + 4096, int(300e6), int(1e9)]
+        p7 = [[(c, s_) for s_ in softs] for c in (["COPY", "LZMA2"] if tier == "quick" else ["COPY", "LZMA2", "BZIP2", "ZSTD", "X86+LZMA", "LZMA2+AES" ])]
+        with Pool() as pool:
+            r7 = pool.map(f"{MODULE}:shard_p7", p7, soft=600)
+        chk.merge_pool(r7, plane="P7")
     return chk.finish(
         rule=(
             "P1: every chain (quick: one per decoder family +-AES; thorough: all 114 constructible chains) x single member of every size in "
             "S(64) x textures, and 25 two-member solid lists, with the I/O block rebound to 64 and 61 bytes and the extraction chunk to 7; "
             "P2: chains x sizes around 32 KiB and 1 MiB at the real constants; P3: choice-tree exploration of (chain, header mode, target "
             f"kind incl. multi-volume 64/100/4096, member count 0..3, name class, size, chunk limit, writestr/writef, open mode w / x) with <= {bound} "
-            "deviations from (LZMA2, encoded, BytesIO, one ASCII member); P4: every documented parameter value; P6: multi-volume targets as a full product volume size {64,72,100,150,512 (thorough: 10 sizes)} x header raw/encoded/encrypted x 0/1/3 members x chain, so that header and packed streams straddle 1, 2, 3+ volume files; P5: solid folders of 4..5 members over the full product of sizes {1,10,64,74,130} around a 64-byte block, with and without a 7-byte extraction chunk. Each case is written by "
+            "deviations from (LZMA2, encoded, BytesIO, one ASCII member); P4: every documented parameter value; P6: multi-volume targets as a full product volume size {64,72,100,150,512 (thorough: 10 sizes)} x header raw/encoded/encrypted x 0/1/3 members x chain, so that header and packed streams straddle 1, 2, 3+ volume files; P5: solid folders of 4..5 members over the full product of sizes {1,10,64,74,130} around a 64-byte block, with and without a 7-byte extraction chunk; P7: a three-member solid archive read in a child process whose RLIMIT_DATA soft limit is 200 MB .. 1 GB (py7zr derives its chunk limit from it). Each case is written by "
             "py7zr, reopened, and compared by getnames, extractall(factory) and extractall(path). Distinct by case digest; non-trivial = "
             "at least one non-empty member reached the byte comparison."
         ),
